@@ -1,8 +1,11 @@
 import Indi.Properties.C11
 import Indi.Properties.C11b
+import Indi.Properties.Decisions
 #print axioms Indi.Buf.C11_bounded
 #print axioms Indi.Buf.C11_genuine
 #print axioms Indi.Buf.C11_retained_suffix
 #print axioms Indi.Buf.C11_junk_delivers_nothing
 #print axioms Indi.Buf.C11_long_junk_transparent
 #print axioms Indi.Buf.C11_resync
+#print axioms Indi.Decisions.bufLoopGuard_agrees
+#print axioms Indi.Decisions.bufCleanupDue_agrees
